@@ -157,7 +157,22 @@ func derivedIdLemmas(prog *Program) []*lemmaQuery {
 	return out
 }
 
+// schemaLemmas (C16, C17, C20): every column is declared with a type of exact storage (TEXT, BLOB, INTEGER
+// and the Postgres spellings): a type with NUMERIC affinity ("STRING", "NUMERIC", ...) makes SQLite rewrite
+// client text that looks like a number.
+func schemaLemmas(prog *Program) []*lemmaQuery {
+	ok := prog.schema != nil && len(prog.schema.TypeProblems) == 0
+	detail := ""
+	if prog.schema != nil {
+		detail = strings.Join(prog.schema.TypeProblems, "; ")
+	}
+	return []*lemmaQuery{structural("every column of CREATE_TABLE_STATEMENT is declared TEXT, BLOB or INTEGER (exact storage, no numeric affinity)", "internal/app/subsystems/aio/store/sqlite:CREATE_TABLE_STATEMENT", ok, detail)}
+}
+
 func extraObligations(prog *Program, prop, tier string) []*lemmaQuery {
+	if prop == "C16" || prop == "C17" || prop == "C20" {
+		return schemaLemmas(prog)
+	}
 	if prop == "C05" {
 		return derivedIdLemmas(prog)
 	}
